@@ -28,6 +28,14 @@ CLAIMED = {
             'Pools are finite; free-text harnesses are hunts unless evidence says CONFIRMED; idna/punycode codecs run untraced (stdlib); '
             'non-termination is only bounded by the per-path timeout.',
             'DESIGN.md 3/C11', 'pool indices enumerated by the solver; free str up to 2-4 characters'),
+    'C06': ('fault_enumeration',
+            'Solver-driven fault enumeration on the real WARCRecorder.write_record over a fake file system whose operations are numbered: '
+            'the index of the operation at which an OSError is injected (or the process is killed, with a torn-write prefix length) is a '
+            'symbolic integer covering every open/write/close/truncate/unlink of an append, the earlier archive content and the new block are '
+            'symbolic byte strings, so content (not just length) is compared for all byte values; plus the start-up refusal for every leftover journal.',
+            'Trusts harness/fakefs.py (file and gzip-framing model), the single-fault model, kill at operation granularity; bounds: earlier content '
+            '<=3 bytes (thorough 5), block <=2 (3); page-cache/fsync durability outside the claim.',
+            'DESIGN.md 3/C06', 'fault/kill operation index and torn length symbolic, data bytes symbolic'),
 }
 
 NOT_APPLICABLE = {
@@ -37,7 +45,7 @@ NOT_APPLICABLE = {
 }
 
 PENDING = {k: 'claimed in DESIGN.md 3 but its check is not built yet at this commit' for k in
-           'C04 C05 C06 C07 C08 C09 C10 C12 C13 C15 C16 C17 C18 C19 C20'.split()}
+           'C04 C05 C07 C08 C09 C10 C12 C13 C15 C16 C17 C18 C19 C20'.split()}
 
 
 def main():
